@@ -17,6 +17,9 @@ RULE = ("random graphs (2..12 vertices, 1..30 edges incl. shared endpoints, self
         "Non-trivial: an edge fired, a negative sample was drawn, a clip was active, a coincident pair, a skipped edge.")
 
 KARGS = dict()
+SGD_K = "_optimize_layout_euclidean_single_epoch"
+SHARED_THMS = "src_sgd_shared_eq"
+DISTINCT_THMS = "src_sgd_distinct_eq"
 
 
 def kernel():
@@ -28,6 +31,24 @@ def call_epoch(H, T, head, tail, nv, eps, a, b, rng, gamma, move_other, alpha, e
     z1 = np.zeros(1, dtype=np.float32)
     kernel()(H, T, head, tail, nv, eps, a, b, rng, gamma, dim, move_other, alpha, epns, nneg, nxt, n,
              False, z1, z1.copy(), 0, 0, 0, 0, z1.copy(), z1.copy(), 0)
+
+
+def call_epoch_py(H, T, head, tail, nv, eps, a, b, rng, gamma, move_other, alpha, epns, nneg, nxt, n):
+    """the kernel's SOURCE run by the Python interpreter (py_func: no fastmath) on float64 arrays; rdist (jitted for float32
+    only) is replaced by its py_func for the duration of the call"""
+    dim = H.shape[1]
+    z1 = np.zeros(1)
+    saved = L.rdist
+    L.rdist = saved.py_func
+    try:
+        with np.errstate(all="ignore"):
+            L._optimize_layout_euclidean_single_epoch(H, T, head, tail, nv, eps, a, b, rng, gamma, dim, move_other, alpha, epns, nneg, nxt, n,
+                                                      False, z1, z1.copy(), 0, 0, 0, 0, z1.copy(), z1.copy(), 0)
+    finally:
+        L.rdist = saved
+
+
+SRC_PTOL = 1e-9    # translated source (binary64, FloatFns pow) vs the interpreter running the same source in float64 (libm pow)
 
 
 def py_tau(st):
@@ -122,8 +143,10 @@ def run(ctx):
     ctx.check_proofs(["prop/P_C07.v"])
     # translation tie: clip, rdist (layouts.py) and tau_rand_int, norm (utils.py) regenerated from the current source;
     # link theorems: translated source = model/M_sgd.v definitions (tau_rand_int by reflexivity: same term)
-    link.check(ctx, "layouts", {"clip": "src_clip_eq", "rdist": "src_rdist_eq"},
-               {"_optimize_layout_euclidean_single_epoch": "mutates array views (current = head_embedding[j]); outside the py2coq subset: tied by the per-epoch correspondence"})
+    #   + the serial Euclidean epoch kernel, translated twice (tail_embedding is head_embedding / two disjoint arrays): coq/link/L_sgd.v
+    lres = link.check(ctx, "layouts", {"clip": "src_clip_eq", "rdist": "src_rdist_eq", "tau_rand_int": "src_tau_rand_int_layouts_eq",
+                                       SGD_K + "_shared": SHARED_THMS, SGD_K + "_distinct": DISTINCT_THMS})
+    src_ready = lres.ok and not any("E_layouts" in e for e in lres.errors)
     link.check(ctx, "utils", {"tau_rand_int": "src_tau_rand_int_eq", "norm": "src_norm_eq"})
     link.check(ctx, "umap_sup", {"make_epochs_per_sample": "src_make_epochs_per_sample_eq"})
     rng = ctx.rng
@@ -155,6 +178,8 @@ def run(ctx):
     ngraphs = 60 if ctx.tier == "quick" else 600
     nep_run = 6
     terms, cases = [], []
+    sterms, scases = [], []     # the same states run through the kernel's py_func in float64: reference for the TRANSLATED source
+    nsrc = 30 if ctx.tier == "quick" else 150
     for gno in range(ngraphs):
         g = gen_graph(rng, npr)
         H = g["H"].copy(); T = H if g["shared"] else g["T"].copy()
@@ -165,6 +190,14 @@ def run(ctx):
             alpha = g["alpha0"] * (1.0 - max(n - 1, 0) / g["nep"]) if n > 0 else g["alpha0"]
             pre = dict(H=H.copy(), T=T.copy(), nxt=nxt.copy(), nneg=nneg.copy(), rs=rs.copy())
             call_epoch(H, T, g["head"], g["tail"], g["nv"], eps, g["a"], g["b"], rs, g["gamma"], g["move_other"], alpha, epns, nneg, nxt, n)
+            if gno < nsrc and src_ready:
+                pH = pre["H"].astype(np.float64); pT = pH if g["shared"] else pre["T"].astype(np.float64)
+                pn, pg, pr = pre["nxt"].copy(), pre["nneg"].copy(), pre["rs"].copy()
+                try:
+                    call_epoch_py(pH, pT, g["head"], g["tail"], g["nv"], eps, g["a"], g["b"], pr, g["gamma"], g["move_other"], alpha, epns, pg, pn, n)
+                    pyres = (pH, pT, pn, pg, pr)
+                except (OverflowError, ValueError, ZeroDivisionError):
+                    pyres = None     # int() of a non-finite quotient: the interpreter raises where the jitted kernel does not
             desc = dict(n=n, alpha=alpha, a=g["a"], b=g["b"], gamma=g["gamma"], move_other=g["move_other"], shared=g["shared"], n_vertices=g["nv"],
                         head=g["head"], tail=g["tail"], epochs_per_sample=eps, epochs_per_negative_sample=epns, pre=pre,
                         post=dict(H=H.copy(), T=T.copy(), nxt=nxt.copy(), nneg=nneg.copy(), rs=rs.copy()))
@@ -201,6 +234,34 @@ def run(ctx):
                 "true" if g["shared"] else "false", edges, ll(pre["H"]), "[]" if g["shared"] else ll(pre["T"]), flist(pre["nxt"]), flist(pre["nneg"]), rngl(pre["rs"]),
                 ll(H), "[]" if g["shared"] else ll(T), flist(nxt), flist(nneg), rngl(rs)))
             cases.append(desc)
+            if gno < nsrc and src_ready and pyres is not None:
+                pH, pT, pn, pg, pr = pyres
+                sterms.append("(mkCase %s %s %s %s %s %s %s %s %s %s %s %s %s %s %s %s %s %s %s)" % (
+                    fl(g["a"]), fl(g["b"]), fl(g["gamma"]), fl(alpha), fl(float(n)), zl(g["nv"]), "true" if g["move_other"] else "false",
+                    "true" if g["shared"] else "false", edges, ll(pre["H"]), "[]" if g["shared"] else ll(pre["T"]), flist(pre["nxt"]), flist(pre["nneg"]), rngl(pre["rs"]),
+                    ll(pH), "[]" if g["shared"] else ll(pT), flist(pn), flist(pg), rngl(pr)))
+                scases.append(desc)
+    # ---- (2b) the TRANSLATED source (Src_layouts.v, regenerated from the current layouts.py) run in binary64 on the same states,
+    #      against the interpreter running the kernel's source in float64 (validates the row-view / aliasing translation)
+    for s in range(0, len(sterms), 60):
+        text = hdr.replace("Import ListNotations.", "From UVS Require Import E_layouts.\nImport ListNotations.", 1) + \
+            "Definition cases : list epoch_case := %s.\nEval vm_compute in map (verdict_src_epoch %s %s) cases.\n" % (clist(sterms[s:s + 60]), fl(SRC_PTOL), fl(CTOL))
+        bl = link.coq_eval(ctx, lres, "cases_C07_src%d" % (s // 60), text, what="translated epoch kernel vs its py_func")
+        if bl is None: continue
+        v = parse_zlist(bl[0])
+        if len(v) != 2 * len(sterms[s:s + 60]):
+            ctx.broken.append("C07 translated-source verdict list length mismatch"); continue
+        for off in range(len(v) // 2):
+            code, dev = v[2 * off], v[2 * off + 1]
+            ctx.traces += 1
+            ctx.extra["max_src_position_deviation"] = max(ctx.extra.get("max_src_position_deviation", 0), dev / 1e12)
+            if code == 6:
+                ctx.broken.append("C07: a generated epoch case is outside the hypotheses of the link theorems src_sgd_shared_eq / src_sgd_distinct_eq")
+            elif code != -1:
+                ctx.diff(scases[s + off], "translated source of the epoch kernel vs py_func: " +
+                         {1: "Tausworthe states", 2: "epoch_of_next_sample", 3: "epoch_of_next_negative_sample",
+                          4: "head positions (dev %.3g)" % (dev / 1e12), 5: "tail positions"}.get(code, str(code)))
+    ctx.extra["translated_epoch_cases"] = len(sterms)
     shard = 60
     maxdev = 0
     for s in range(0, len(terms), shard):
